@@ -38,10 +38,10 @@ def register(P):
     reg(P, "C18", ["UtpVerif.Props.C18"], ["stream_content", "nagle"])
     reg(P, "C05", ["UtpVerif.Props.C05"], ["window"])
     reg(P, "C07", ["UtpVerif.Props.C07"], ["ack_timeliness"])
-    reg(P, "C17", ["UtpVerif.Props.C17"], ["stream_content"])
+    reg(P, "C17", ["UtpVerif.Props.C17"], ["stream_content", "fin_sent"])
     reg(P, "C01", ["UtpVerif.Props.C01"], ["stream_content"], ["segs", "txring", "rx"])
     reg(P, "C02", ["UtpVerif.Props.C02"], ["calls_resolve", "ack_timeliness", "rtx_timer"], ["txring", "rx"])
-    reg(P, "C03", ["UtpVerif.Props.C03"], ["calls_resolve", "stream_content", "ack_honesty"], ["txring", "rx"])
+    reg(P, "C03", ["UtpVerif.Props.C03"], ["calls_resolve", "stream_content", "ack_honesty", "fin_sent"], ["txring", "rx"])
     reg(P, "C06", ["UtpVerif.Props.C06"], ["stream_content", "retx_cap"], ["segs"])
     reg(P, "C08", ["UtpVerif.Props.C08"], ["calls_resolve", "task_ends"])
     reg(P, "C10", ["UtpVerif.Props.C10"], ["bug_errors"], ["segs", "rx", "wire"])
